@@ -569,6 +569,49 @@ Definition check_refine (p n : obs) (args res : list Z) : list (tag * bool) :=
   | _, _, _ => [(T_parse, false)]
   end.
 
+(* the quality guarantee of a completed refinement (last sentence of C20): if refinement_complete, no two fixed (constraint or hull) edges of the
+   input meet at less than 90 degrees, the angle limit is at most 20 degrees (radius / shortest edge >= 1 / (2 sin 20) ~ 1.4619) and constraint
+   edges may be split, then every face that is not excluded and not below min_required_area has circumradius / shortest edge <= the limit and
+   area <= max_allowed_area.  The implementation evaluates both in floating point: a relative tolerance of 1e-9 (f32: 1e-3) is granted. *)
+Definition fixed_edge (s : obs) (e : nat) : bool := flag s e || (face s e =? 0) || (face s (rev e) =? 0).
+Definition fixed_angles_ok (s : obs) (pts : list pnt) : bool :=
+  forallb (fun e1 => negb (fixed_edge s e1) ||
+     forallb (fun e2 => negb (fixed_edge s e2 && (org s e2 =? org s e1) && negb (e2 =? e1))
+                        || (dot (eorg s pts e1) (edst s pts e1) (edst s pts e2) <=? 0)%Z) (seq 0 (nH s))) (seq 0 (nH s)).
+(* m * 2^e compared with num / den (all non-negative): num * T <= m * 2^e * den * (T + 1) *)
+Definition le_dy_tol (T : Z) (num den : Z) (d : dy) : bool :=
+  let '(m, e) := d in
+  if (0 <=? e)%Z then (num * T <=? Z.shiftl m e * den * (T + 1))%Z
+  else (Z.shiftl (num * T) (- e) <=? m * den * (T + 1))%Z.
+Definition check_refine_quality (c : cfg) (p n : obs) (args res : list Z) : list (tag * bool) :=
+  match args, res with
+  | [ratio; mina; maxa; _; keep; excl], complete :: ne :: ex =>
+      if negb (complete =? 1)%Z || (keep =? 1)%Z || (ratio =? K_dash)%Z then [] else
+      match obs_points p, with_points n [], decode ratio with
+      | Some ppts, Some (npts, _, em), Some (rm, re) =>
+          (* limit >= 1.4619 : rm * 2^re * 10000 >= 14619 *)
+          let limit_ok := if (0 <=? re)%Z then (14619 <=? Z.shiftl rm re * 10000)%Z else (Z.shiftl 14619 (- re) <=? rm * 10000)%Z in
+          if negb limit_ok || negb (fixed_angles_ok p ppts) then [] else
+          let T := if c_f32 c then 1000%Z else 1000000000%Z in
+          let got := map Z.to_nat ex in
+          let mind := if (mina =? K_dash)%Z then None else decode mina in
+          let maxd := if (maxa =? K_dash)%Z then None else decode maxa in
+          (* areas: 4 * area = dd * 2^(2 em) on the points' scale; compare dd with 4 * A * 2^(-2 em) *)
+          let area_le (dd : Z) (d : dy) (tol : Z) : bool := le_dy_tol tol dd 1 (fst d * 4, snd d - 2 * em)%Z in
+          let face_ok (f : nat) : bool :=
+            let '(a, b, cc) := face_tri n npts f in
+            let '(ux, uy, dd) := cc_num a b cc in
+            let lmin := Z.min (dist2 a b) (Z.min (dist2 b cc) (dist2 cc a)) in
+            let small := match mind with Some d => area_le dd d T | None => false end in     (* at or below min_required_area (within tolerance): may be ignored *)
+            small ||
+            (le_dy_tol T (ux * ux + uy * uy) (lmin * dd * dd) (rm * rm, 2 * re)%Z
+             && match maxd with Some d => area_le dd d T | None => true end) in
+          [(T_refine, forallb (fun f => memb f got || face_ok f) (seq 1 (nF n - 1)))]
+      | _, _, _ => []
+      end
+  | _, _ => []
+  end.
+
 (* add_constraint_and_split a b: a chain of constraint edges from a to b (through new vertices or vertices on the segment), every
    old constraint still covered, existing vertices untouched, one new vertex per ... *)
 Definition check_split (p n : obs) (a b : Z) (res : list Z) : list (tag * bool) :=
@@ -810,7 +853,7 @@ Definition check_op (c : cfg) (p : obs) (op : Z) (args res : list Z) (n : obs) (
   else if (op =? OP_nnw)%Z then check_weights c p true args res
   else if (op =? OP_line)%Z then check_line p args res
   else if (op =? OP_lineh)%Z then check_lineh p args res
-  else if (op =? OP_refine)%Z then check_refine p n args res
+  else if (op =? OP_refine)%Z then check_refine p n args res ++ check_refine_quality c p n args res
   else if (op =? OP_split)%Z then match args with [a; b] => check_split p n a b res | _ => [(T_parse, false)] end
   else if (op =? OP_msq)%Z then check_msq args res
   else if (op =? OP_mcic)%Z then check_mcic args res
